@@ -95,6 +95,31 @@ class SymArr(np.ndarray):
         key = _concretize_key(key, self.shape)
         super().__setitem__(key, val)
 
+    def _cmpop(self, o, f):
+        if isinstance(o, (str, bytes)) or o is None:
+            return NotImplemented
+        return _map2(f, np.asarray(self), o)
+
+    def __lt__(self, o):
+        return self._cmpop(o, lambda a, b: a < b)
+
+    def __le__(self, o):
+        return self._cmpop(o, lambda a, b: a <= b)
+
+    def __gt__(self, o):
+        return self._cmpop(o, lambda a, b: a > b)
+
+    def __ge__(self, o):
+        return self._cmpop(o, lambda a, b: a >= b)
+
+    def __eq__(self, o):
+        return self._cmpop(o, lambda a, b: a == b)
+
+    def __ne__(self, o):
+        return self._cmpop(o, lambda a, b: a != b)
+
+    __hash__ = None
+
     def _inplace(self, o, f, sup):
         if _is_sym(o):
             np.ndarray.__setitem__(self, Ellipsis, f(np.asarray(self).view(SymArr), o))
